@@ -80,6 +80,8 @@ class SchemaInfo:
                 "dfa": self.dump_dfa(t.content_match),
                 "markSet": None if t.mark_set is None else [self.mid[m.name] for m in t.mark_set],
                 "attrs": self.attr_decls(t.attrs),
+                "definingAsContext": bool(t.spec.get("definingAsContext")),
+                "definingForContent": bool(t.spec.get("definingForContent")),
             })
         marks = []
         for name in self.mark_names:
@@ -277,6 +279,8 @@ def spec_dump(spec):
             "defining": bool(s.get("defining")),
             "code": bool(s.get("code")),
             "attrs": spec_attrs(s.get("attrs")),
+            "definingAsContext": bool(s.get("definingAsContext")),
+            "definingForContent": bool(s.get("definingForContent")),
         })
     marks = []
     for name, s in (spec.get("marks") or {}).items():
